@@ -16,7 +16,7 @@ import os
 from ..facts import AnalysisBroken, short
 from ..paths import path, pstr, last_field, root_var_id, fields_in
 from .. import witness, extract
-from .qcommon import TUInfo
+from .qcommon import TUInfo, check_counter_zero
 from .c20 import check_init
 from .listrules import edge_dominates
 
@@ -49,6 +49,7 @@ def check(ctx):
         check_fields(ctx, tu, info)
         check_clone(ctx, tu, info)
         check_queue_ctors(ctx, tu)
+        check_counter_zero(ctx, tu, 'C10.Q')
         check_value_state(ctx, tu)
     ctx.require_min('C10.I', 12)
     ctx.require_min('C10.F', 7)
